@@ -8,10 +8,12 @@
     [EAttr] AttributeError, [EIndex] IndexError, [EExit n] SystemExit(n)).
 
     Not modelled (trusted, exercised by the correspondence runs): the YAML/TOML parsers, [Path]
-    normalisation (file names are taken to be in normal form, a [Path] is its string), YAML
-    aliases (two sections being the same object), the NetCDF read of the warm start file (its
+    normalisation (file names are taken to be in normal form, a [Path] is its string), the NetCDF read of the warm start file (its
     last time value is the argument [wst]), the directory listing (the sorted expansion of a
-    pattern is the Section variable [glob]).  Definitions only; proofs in Proofs/ConfigProofs.v. *)
+    pattern is the Section variable [glob]).  The readers are FUNCTIONS of the tree: whether two equal
+    mappings of the file are one shared object (a YAML anchor/alias) cannot matter; the generated
+    files use aliases, so in-place editing of the loaded configuration shows up as a
+    correspondence failure.  Definitions only; proofs in Proofs/ConfigProofs.v. *)
 From Coq Require Import ZArith List Bool String Ascii DecimalString.
 Import ListNotations.
 Open Scope string_scope.
